@@ -464,7 +464,7 @@ fn c10_oracle(c: &Case, outs: &[Out]) -> Vec<Finding> {
   for (k, ((i, op), o)) in c.script.iter().zip(outs).enumerate() {
     if *i == refi { continue }
     let got = c10_obs(src, op, o);
-    if let Some(w) = want.get(&format!("{:?}", op)) { if *w != got { v.push(finding("transparent", format!("step {k} A{i}.{:?}: cached answers {} — wrapped source answers {}", op, &got[..got.len().min(300)], &w[..w.len().min(300)]))); break; } }
+    if let Some(w) = want.get(&format!("{:?}", op)) { if *w != got { v.push(finding("transparent", format!("step {k} A{i}.{:?}: cached answers {} — wrapped source answers {}", op, trunc(&got, 300), trunc(&w, 300)))); break; } }
   }
   v
 }
